@@ -457,7 +457,15 @@ pub fn run_campaign<P: Property>(p: &P, tier: Tier, seed: u64) -> RunOutcome {
         strict: false,
         tier,
     };
-    let extra_fail = p.extra(tier, seed, &mut ctx, &mut stats);
+    // a panic of the code under test inside a constructed family (they call the oracle outside the shard runner) is a
+    // failure of that family, reported like any other, not a crash of the harness
+    let extra_fail = match guarded(|| p.extra(tier, seed, &mut ctx, &mut stats)) {
+        Ok(f) => f,
+        Err(msg) => vec![(
+            serde_json::json!({"constructed_family": "the property's fixed-size families (see `rule` in the evidence file); re-run the check to reproduce"}),
+            Failure { clause: format!("family-panic:{}", panic_site(&msg)), detail: format!("a constructed family of {} panicked: {}", p.id(), msg) },
+        )],
+    };
     let _ = std::fs::remove_dir_all(&ctx.dir);
     failures.extend(extra_fail);
     RunOutcome {
